@@ -4,7 +4,12 @@
 // the real tree is zero would otherwise pass vacuously forever).
 package c08pos
 
-import "reflect"
+import (
+	"fmt"
+	"reflect"
+)
+
+func fmtSprint(x interface{}) string { return fmt.Sprint(x) }
 
 type T struct {
 	A int
@@ -19,3 +24,12 @@ func UsesDeepEqual(a, b interface{}) bool           { return reflect.DeepEqual(a
 func UsesIsZero(v reflect.Value) bool               { return v.IsZero() }
 func UsesIfaceEq(a, b interface{}) bool             { return a == b }
 func UsesVisibleFields(t reflect.Type) int          { return len(reflect.VisibleFields(t)) }
+
+func UsesAssertOnParam(datum interface{}) interface{} {
+	if m, ok := datum.(map[string]interface{}); ok {
+		return m["x"]
+	}
+	return nil
+}
+
+func UsesSprintOfValue(v reflect.Value) string { return fmt.Sprint(v.Interface()) }
